@@ -1011,3 +1011,33 @@ func sortedFuncNames(m map[string]bool) []string {
 }
 
 var _ = genfacts.SpecWidth
+
+// iohelpMustStrings: the unchecked string readers index buf only through the
+// slice buf[4:4+sz] and the 4-byte length read; no other constant index.
+func iohelpMustStrings(c *core.Ctx, p *load.Prog, rule string) {
+	for _, name := range []string{"MustReadStringBytes", "MustReadStringBytesSharedMemory"} {
+		f := ioFunc(c, p, name)
+		if f == nil {
+			continue
+		}
+		bad := ""
+		slices := 0
+		ast.Inspect(f.fd.Body, func(n ast.Node) bool {
+			switch x := n.(type) {
+			case *ast.IndexExpr:
+				if wire.Canon(x.X) == "buf" {
+					bad = wire.Canon(x)
+				}
+			case *ast.SliceExpr:
+				if wire.Canon(x.X) == "buf" {
+					slices++
+					if wire.Canon(x.Low) != "4" || wire.Canon(x.High) != "4 + sz" {
+						bad = wire.Canon(x)
+					}
+				}
+			}
+			return true
+		})
+		c.Check(rule, name+" touches buf only as buf[4:4+sz]", f.pos(), bad == "" && slices == 1, "the expression "+bad+" reads buf outside the string's own bytes: an empty string at the end of a valid buffer panics under this option only")
+	}
+}
